@@ -559,3 +559,51 @@ Theorem dyn_holds_spec : forall t0 u0 r0 rest,
   dyn_holds ((t0, u0, r0) :: rest) = 0 <->
   Forall (fun tur => snd (fst tur) = true /\ snd tur = r0) ((t0, u0, r0) :: rest).
 Proof. intros t0 u0 r0 rest. unfold dyn_holds. apply dyn_first_bad_spec. Qed.
+
+(* ---------------------------------------------------------------- positions: what the harness reads back *)
+
+Lemma enumerate_nth : forall (A : Type) (l : list A) k i x,
+  In (i, x) (enumerate_from k l) -> k <= i /\ nth_error l (i - k) = Some x.
+Proof.
+  intros A l. induction l as [|y l IH]; simpl; intros k i x H; [contradiction|].
+  destruct H as [H|H].
+  - injection H as <- <-. split; [lia|]. rewrite Nat.sub_diag. reflexivity.
+  - apply IH in H. destruct H as [H1 H2]. split; [lia|].
+    replace (i - k) with (S (i - S k)) by lia. exact H2.
+Qed.
+
+Lemma enumerate_In : forall (A : Type) (l : list A) k x, In x l -> exists i, In (i, x) (enumerate_from k l).
+Proof.
+  intros A l. induction l as [|y l IH]; simpl; intros k x H; [contradiction|].
+  destruct H as [<-|H].
+  - exists k. left. reflexivity.
+  - destruct (IH (S k) x H) as [i Hi]. exists i. right. exact Hi.
+Qed.
+
+Definition lref_line (lr : lref) : nat := snd (fst lr).
+
+(* every triple printed by `failing_idx` is the position, the source line and the diagnosis of a reference of the
+   program that does not resolve ... *)
+Theorem failing_idx_sound : forall p i ln d, In (i, ln, d) (failing_idx p) ->
+  exists lr, nth_error (refs p) i = Some lr /\ ~ Resolves p lr /\ ln = lref_line lr /\ d = diagnose_lref p lr.
+Proof.
+  intros p i ln d H. unfold failing_idx in H. apply in_map_iff in H.
+  destruct H as [[j lr] [E H]]. apply filter_In in H. destruct H as [H1 H2]. simpl in H2.
+  apply enumerate_nth in H1. destruct H1 as [_ H1]. rewrite Nat.sub_0_r in H1.
+  destruct lr as [[[m s] ln'] r]. injection E as <- <- <-.
+  exists (m, s, ln', r). repeat split; try reflexivity; try assumption.
+  intros R. apply check_lref_iff in R. rewrite R in H2. discriminate.
+Qed.
+
+(* ... and every such reference is printed *)
+Theorem failing_idx_complete : forall p lr, In lr (refs p) -> ~ Resolves p lr ->
+  exists i, In (i, lref_line lr, diagnose_lref p lr) (failing_idx p) /\ nth_error (refs p) i = Some lr.
+Proof.
+  intros p lr Hin Hn. destruct (enumerate_In _ (refs p) 0 lr Hin) as [i Hi].
+  exists i. split.
+  - unfold failing_idx. apply in_map_iff. exists (i, lr). split.
+    + destruct lr as [[[m s] ln] r]. reflexivity.
+    + apply filter_In. split; [exact Hi|]. simpl. apply negb_true_iff.
+      destruct (check_lref p lr) eqn:C; [|reflexivity]. exfalso. apply Hn. apply check_lref_iff. exact C.
+  - apply enumerate_nth in Hi. destruct Hi as [_ Hi]. rewrite Nat.sub_0_r in Hi. exact Hi.
+Qed.
